@@ -87,6 +87,15 @@ def extract():
     if not i:
         raise ExtractError("impl TempFile not found")
     tf = src[i.end():match_brace(src, i.end() - 1)]
+    # TempFile::create: `File::create(path)` (= O_CREAT|O_TRUNC). Anything else (OpenOptions …) is
+    # recognised only if it spells `.truncate(true)`; otherwise the pessimistic fact `false`.
+    create = fn_body(tf, "create")
+    create_truncates = re.search(r"\bFile\s*::\s*create\s*\(\s*path\s*\)", create) is not None or \
+        (re.search(r"OpenOptions", create) is not None and re.search(r"\.\s*truncate\s*\(\s*true\s*\)", create) is not None)
+    # does anything open and sync the destination's parent directory after the rename? (recorded, no
+    # theorem needs it: without it the *rename* is atomic but not itself durable)
+    syncs_parent = re.search(r"\.\s*parent\s*\(\s*\)", src[i.end():match_brace(src, i.end() - 1)]) is not None and \
+        re.search(r"sync_all|sync_data", fn_body(tf, "commit")) is not None
     commit = fn_body(tf, "commit")
     c_none = re.search(r"self\s*\.\s*file\s*=\s*None", commit)
     c_ren = re.search(r"fs\s*::\s*rename\s*\(", commit)
@@ -121,7 +130,8 @@ def extract():
     return {"steps": steps, "pullResFirst": pull_first, "tempSuffix": sm.group(1),
             "dropRemovesUncommitted": drop_removes, "commitClosesBeforeRename": closes_first,
             "commitRemovesOnRenameError": removes_on_err, "writeFileCommitsOnlyOnOk": wf_commit_ok_only,
-            "readerEofOnlyAfterLast": reader_ok}
+            "readerEofOnlyAfterLast": reader_ok, "tempCreateTruncates": create_truncates,
+            "syncsParentDir": syncs_parent}
 
 
 def render(f):
@@ -160,6 +170,14 @@ def writeFileCommitsOnlyOnOk : Bool := {b(f['writeFileCommitsOnlyOnOk'])}
 /-- `ChunkReader::fetch` sets `last_seen`/`finished` only under `if last`, `read` returns `Ok(0)` only
 under `if self.finished`. -/
 def readerEofOnlyAfterLast : Bool := {b(f['readerEofOnlyAfterLast'])}
+
+/-- `TempFile::create` opens the temp path with create + truncate (`File::create`): a stale temp file
+left by a killed pull cannot leak into what is published. -/
+def tempCreateTruncates : Bool := {b(f['tempCreateTruncates'])}
+
+/-- `commit` also opens and syncs the destination's parent directory (recorded; no theorem depends on
+it — without it the rename is atomic but not yet durable when the pull returns). -/
+def syncsParentDir : Bool := {b(f['syncsParentDir'])}
 
 end Repe.Gen.Commit
 """
